@@ -6,3 +6,9 @@ claim("C06",
   "Decides, for every input at once, structural necessary conditions of C06 on the current source: comparator positions never used as NUMA ids (the 'whichever node ids the hint names' clause), allocate/release write the same ledgers, ledger fields accessed only under the node lock, required bind policy verified before success. It does not decide the set arithmetic (exact count, disjointness, never more than free).",
   "trusts go/types+go/ssa of x/tools v0.50.0 and the rule tables in internal/rules/c06.go; amounts and CPU-id sets are runtime quantities and are not decided",
   "DESIGN.md §4 C06")
+
+claim("C10",
+  "custom SSA rules: divisor-nonzero proof (dominating guards) over the package, dominating-guard rule on candidate-pool appends, provenance slice of the applied CPU list, Sub-only polarity of the budget, must-pass-through max() for the quota",
+  "Decides structural necessary conditions of C10 for every input: no integer division in the suppress computation can see a zero divisor (never crashes when no CPU is eligible); reserved, system-exclusive and LSE-owned CPUs cannot enter the BE candidate pools or survive calcBECPUSet's filter; the applied CPU list comes only from the selection over those pools; consumption terms only lower the budget; the quota is floored. It does not decide the numeric budget, the exact CPU count, distinctness or the step limit.",
+  "trusts go/ssa and the rule tables in internal/rules/c10.go; numeric quantities are not decided; assumes configured percentages are non-negative",
+  "DESIGN.md §4 C10")
